@@ -233,6 +233,16 @@ class Folder:
             return ('int', max(args[0][1], args[1][1]), args[0][2], args[0][3])
         if name.endswith('Ord::min') and all(a[0] == 'int' for a in args):
             return ('int', min(args[0][1], args[1][1]), args[0][2], args[0][3])
+        for suf, f in (('PartialOrd::lt', lambda x, y: x < y), ('PartialOrd::le', lambda x, y: x <= y), ('PartialOrd::gt', lambda x, y: x > y), ('PartialOrd::ge', lambda x, y: x >= y),
+                       ('PartialEq::eq', lambda x, y: x == y), ('PartialEq::ne', lambda x, y: x != y)):
+            if name.endswith(suf) and len(args) == 2:
+                def scalar(a):
+                    # derived comparisons on a one-field newtype compare the field
+                    while a[0] == 'ref': a = a[1]
+                    while a[0] == 'enum' and len(a[3]) == 1: a = a[3][0]
+                    return a[1] if a[0] == 'int' else None
+                x, y = scalar(args[0]), scalar(args[1])
+                if x is not None and y is not None: return ('bool', f(x, y))
         if '::into' in name or name.endswith('::from'):
             dt = t['dest']['ty']
             a = args[0]
